@@ -350,7 +350,11 @@ func (w *World) Stats() *stats.World {
 // Usually, memory should stay allocated for reuse when new entities are created or
 // moved between archetypes when adding or removing components.
 // However, it might be useful in memory-constrained environments e.g. after initialization.
+//
+// Panics when called on a locked world, e.g. during query iteration.
 func (w *World) Shrink(stopAfter ...time.Duration) bool {
+	w.checkLocked()
+
 	if len(stopAfter) > 1 {
 		panic("no more than one time limit stopAfter can be given")
 	}
